@@ -22,7 +22,8 @@ ROOT = os.path.dirname(os.path.dirname(os.path.abspath(__file__)))
 REPO = os.environ.get("VERIF_REPO", "/repo")
 LEAN = os.path.join(ROOT, "lean")
 WORK = os.path.join(ROOT, ".work")
-EVID = os.path.join(ROOT, "evidence")
+# evidence/ describes /repo; a run redirected to another tree (VERIF_REPO, used to evaluate seeded changes) keeps its evidence apart
+EVID = os.path.join(ROOT, "evidence") if os.path.realpath(REPO) == "/repo" else os.path.join(WORK, "evidence-alt")
 REPLAYS = os.path.join(ROOT, "replays")
 ALLOWED_AXIOMS = {"propext", "Classical.choice", "Quot.sound"}
 BANNED = re.compile(r"\b(sorry|admit|native_decide|bv_decide|implemented_by|unsafe)\b|maxHeartbeats\s+0|^\s*axiom\s", re.M)
